@@ -10,7 +10,9 @@ every outcome of the connect attempts, and — for the `run` theorems — every 
 SIGHUPs, housekeeping ticks and environment steps.
 
 `mk : Ip → Label` is the label function `format!("{host}:{port} via {ip}")`; nothing is assumed
-about it (not even injectivity).
+about it (not even injectivity) in sections 1–10, which follow the code and speak about LABELS.
+Section 11 restates survivors / removed / tracker / routing choice / added-once by ADDRESS, under the
+proved invariant `label = mk ip` and injectivity of `mk` (proved for `mkLabel host port`).
 -/
 namespace Srtla.Props.C19
 open Srtla.Reload
@@ -530,6 +532,387 @@ example :
                 ⟨4, "127.0.0.4", mk "127.0.0.4", 0⟩] ∧
     s'.io.keys = [4, 1, 3] ∧ s'.lastSel = none ∧
     s'.tracker.get 100 2000 = some 1 ∧ s'.tracker.get 200 2000 = none := by
+  decide
+
+/-! ## 11. The same by ADDRESS
+
+`apply_connection_changes` decides by LABEL (`desired_labels.contains(&c.label)`), and sections 3–8
+say so. The property speaks about the uplink's ADDRESS. The two coincide on every reachable state:
+
+* `LabelInv mk s` — every link's label is the label function applied to its own address — holds
+  after `startup` (whatever the list and the connect outcomes), is kept by `applyChanges` and by every
+  `Op` (SIGHUP, tick, tracker insert, link-state change, routing choice, in-place reconnect), hence
+  along every run. No hypothesis is needed (not even fresh ids).
+* the real label function `mkLabel host port` is injective (`C19_mkLabel_injective`), so
+  `mk l.ip ∈ newIps.map mk ↔ l.ip ∈ newIps`.
+
+The `…_by_ip` theorems below are derived from the label-based ones (not re-proved); each takes the
+invariant and `Function.Injective mk`; `…_by_ip_mkLabel` / `…_run` discharge both. -/
+
+theorem C19_label_inv_iff (mk : Ip → Label) (s : Sys) :
+    LabelInv mk s ↔ ∀ l ∈ s.links, l.label = mk l.ip := Iff.rfl
+
+/-- Startup (`create_connections_from_ips` over the file's list, duplicates and failed attempts
+included) establishes label = mk address. -/
+theorem C19_label_inv_startup (mk : Ip → Label) (ips : List Ip) (outs : List (Option ConnOk)) :
+    LabelInv mk (startup mk ips outs) := labelInv_startup mk ips outs
+
+/-- One `apply_connection_changes` keeps it (survivors are old records, new links are labelled from
+their address). -/
+theorem C19_label_inv_apply (mk : Ip → Label) (s : Sys) (newIps : List Ip) (outs : List (Option ConnOk))
+    (h : LabelInv mk s) : LabelInv mk (applyChanges mk s newIps outs) :=
+  labelInv_applyChanges mk s newIps outs h
+
+/-- Every `Op` keeps it: sighup, tick, track, mutate, select, resock. -/
+theorem C19_label_inv_step (mk : Ip → Label) (s : Sys) (op : Op) (h : LabelInv mk s) :
+    LabelInv mk (step mk s op) := labelInv_step mk s op h
+
+/-- Hence every finite history keeps it. -/
+theorem C19_label_inv_run (mk : Ip → Label) (s : Sys) (ops : List Op) (h : LabelInv mk s) :
+    LabelInv mk (run mk s ops) := labelInv_run mk s ops h
+
+/-- Every state reachable from startup satisfies it. -/
+theorem C19_label_inv_reachable (mk : Ip → Label) (ips : List Ip) (outs : List (Option ConnOk))
+    (ops : List Op) : LabelInv mk (run mk (startup mk ips outs) ops) :=
+  labelInv_run mk _ ops (labelInv_startup mk ips outs)
+
+/-- The run of section 5 (duplicate line and failed attempt at startup; remove/keep/add reload,
+refused SIGHUP, in-place reconnect): the invariant holds at the end, and the end state is non-trivial. -/
+example :
+    let mk := mkLabel "127.0.0.1" 5000
+    let s := startup mk ["127.0.0.1", "127.0.0.1", "10.255.255.1", "127.0.0.2"]
+      [some ⟨1, 1, 0⟩, some ⟨2, 2, 0⟩, none, some ⟨3, 3, 0⟩]
+    let ops : List Op :=
+      [.track 5 3 100, .sighup (some [.ok "127.0.0.2", .bad, .ok "127.0.0.3"]), .mutate 2 7,
+       .tick [some ⟨4, 4, 0⟩], .sighup none, .resock 0 1001 8, .tick [some ⟨5, 5, 0⟩]]
+    LabelInv mk (run mk s ops) ∧ (run mk s ops).links.map (·.ip) = ["127.0.0.2", "127.0.0.3"] ∧
+      s.links.map (·.ip) = ["127.0.0.1", "127.0.0.1", "127.0.0.2"] := by
+  intro mk s ops
+  exact ⟨C19_label_inv_reachable _ _ _ _, by decide, by decide⟩
+
+/-- The invariant is a real restriction on `Sys` (the label-based theorems also cover states that
+violate it; such states are unreachable). -/
+example : ¬ LabelInv (mkLabel "h" 1) { links := [⟨1, "a", "h:1 via b", 0⟩] } := by
+  unfold LabelInv; decide
+
+/-- Label membership is address membership for an injective label function. -/
+theorem C19_label_listed_iff_ip_listed (mk : Ip → Label) (hinj : Function.Injective mk) (s : Sys)
+    (hinv : LabelInv mk s) (newIps : List Ip) (l : Link) (hl : l ∈ s.links) :
+    l.label ∈ newIps.map mk ↔ l.ip ∈ newIps := label_desired_iff hinj hinv newIps hl
+
+/-! ### 11.3 Survivors, by address -/
+
+/-- Every link whose ADDRESS is still listed is kept as the very same record (identity, address,
+label, opaque full-state token), in the old relative order, as a prefix of the new list; everything
+after the prefix is a newly created link whose address is listed and was not connected before. -/
+theorem C19_survivors_equal_by_ip (mk : Ip → Label) (hinj : Function.Injective mk) (s : Sys)
+    (hinv : LabelInv mk s) (newIps : List Ip) (outs : List (Option ConnOk)) :
+    ∃ added : List Link,
+      (applyChanges mk s newIps outs).links =
+        s.links.filter (fun l => decide (l.ip ∈ newIps)) ++ added ∧
+      ∀ a ∈ added, a.ip ∉ s.links.map (·.ip) ∧ a.connId ∈ okIds outs ∧
+        a.ip ∈ newIps ∧ a.label = mk a.ip := by
+  obtain ⟨added, h, hadd⟩ := C19_survivors_equal mk s newIps outs
+  refine ⟨added, by rw [h, filter_label_eq_filter_ip hinj hinv], fun a ha => ?_⟩
+  obtain ⟨h1, h2, h3, h4⟩ := hadd a ha
+  refine ⟨fun hip => h1 ?_, h2, h3, h4⟩
+  rw [h4]; exact (mk_mem_labels_iff hinj hinv _).2 hip
+
+theorem C19_survivors_prefix_by_ip (mk : Ip → Label) (hinj : Function.Injective mk) (s : Sys)
+    (hinv : LabelInv mk s) (newIps : List Ip) (outs : List (Option ConnOk)) :
+    s.links.filter (fun l => decide (l.ip ∈ newIps)) <+: (applyChanges mk s newIps outs).links := by
+  obtain ⟨added, h, -⟩ := C19_survivors_equal_by_ip mk hinj s hinv newIps outs
+  exact ⟨added, h.symm⟩
+
+/-- The socket (I/O-map entry) of a link whose address is still listed is untouched. -/
+theorem C19_survivors_socket_by_ip (mk : Ip → Label) (hinj : Function.Injective mk) (s : Sys)
+    (hinv : LabelInv mk s) (newIps : List Ip) (outs : List (Option ConnOk))
+    (hnd : (ids s).Nodup) (hfresh : Fresh s outs) (l : Link) (hl : l ∈ s.links)
+    (hkeep : l.ip ∈ newIps) :
+    (applyChanges mk s newIps outs).io.get l.connId = s.io.get l.connId :=
+  C19_survivors_socket mk s newIps outs hnd hfresh l hl
+    ((label_desired_iff hinj hinv newIps hl).2 hkeep)
+
+/-! ### 11.4 Removed exactly, by address -/
+
+/-- Of the old links, exactly those whose ADDRESS is no longer listed disappear. -/
+theorem C19_removed_exactly_by_ip (mk : Ip → Label) (hinj : Function.Injective mk) (s : Sys)
+    (hinv : LabelInv mk s) (newIps : List Ip) (outs : List (Option ConnOk))
+    (l : Link) (hl : l ∈ s.links) :
+    l ∈ (applyChanges mk s newIps outs).links ↔ l.ip ∈ newIps :=
+  (C19_removed_exactly mk s newIps outs l hl).trans (label_desired_iff hinj hinv newIps hl)
+
+/-- Identity level: an old `conn_id` is live afterwards iff its address is still listed. -/
+theorem C19_removed_exactly_ids_by_ip (mk : Ip → Label) (hinj : Function.Injective mk) (s : Sys)
+    (hinv : LabelInv mk s) (newIps : List Ip) (outs : List (Option ConnOk))
+    (hnd : (ids s).Nodup) (hfresh : Fresh s outs) (l : Link) (hl : l ∈ s.links) :
+    l.connId ∈ ids (applyChanges mk s newIps outs) ↔ l.ip ∈ newIps :=
+  (C19_removed_exactly_ids mk s newIps outs hnd hfresh l hl).trans
+    (label_desired_iff hinj hinv newIps hl)
+
+/-- … and the I/O handle of a link whose address is no longer listed is gone. -/
+theorem C19_removed_io_by_ip (mk : Ip → Label) (hinj : Function.Injective mk) (s : Sys)
+    (hinv : LabelInv mk s) (newIps : List Ip) (outs : List (Option ConnOk))
+    (hfresh : Fresh s outs) (l : Link) (hl : l ∈ s.links) (hgone : l.ip ∉ newIps) :
+    (applyChanges mk s newIps outs).io.get l.connId = none ∧
+    l.connId ∉ (applyChanges mk s newIps outs).io.keys :=
+  C19_removed_io mk s newIps outs hfresh l hl
+    (fun h => hgone ((label_desired_iff hinj hinv newIps hl).1 h))
+
+/-! ### 11.6 NAK-attribution records, by address -/
+
+/-- The purged ids are the `conn_id`s of the old links whose address is not listed. -/
+theorem C19_removed_ids_by_ip (mk : Ip → Label) (hinj : Function.Injective mk) (s : Sys)
+    (hinv : LabelInv mk s) (newIps : List Ip) :
+    removedIds mk s newIps = (s.links.filter (fun l => !decide (l.ip ∈ newIps))).map (·.connId) ∧
+    ∀ id, id ∈ removedIds mk s newIps ↔ ∃ l, l ∈ s.links ∧ l.ip ∉ newIps ∧ l.connId = id :=
+  ⟨removedIds_eq_map_filter_ip hinj hinv newIps, mem_removedIds_by_ip hinj hinv newIps⟩
+
+/-- After the reload a sequence number is attributed exactly as before, except that every
+attribution to the `conn_id` of a link whose address is no longer listed is gone. -/
+theorem C19_tracker_purged_by_ip (mk : Ip → Label) (hinj : Function.Injective mk) (s : Sys)
+    (hinv : LabelInv mk s) (newIps : List Ip) (outs : List (Option ConnOk)) (seq now : Nat) :
+    (applyChanges mk s newIps outs).tracker.get seq now =
+      match s.tracker.get seq now with
+      | some id =>
+        if id ∈ (s.links.filter (fun l => !decide (l.ip ∈ newIps))).map (·.connId) then none
+        else some id
+      | none => none := by
+  rw [C19_tracker_purged, removedIds_eq_map_filter_ip hinj hinv]
+
+/-- No lookup, for any sequence number at any time, returns a link whose address is no longer listed. -/
+theorem C19_tracker_no_removed_by_ip (mk : Ip → Label) (hinj : Function.Injective mk) (s : Sys)
+    (hinv : LabelInv mk s) (newIps : List Ip) (outs : List (Option ConnOk))
+    (l : Link) (hl : l ∈ s.links) (hgone : l.ip ∉ newIps) (seq now : Nat) :
+    (applyChanges mk s newIps outs).tracker.get seq now ≠ some l.connId :=
+  C19_tracker_no_removed mk s newIps outs l hl
+    (fun h => hgone ((label_desired_iff hinj hinv newIps hl).1 h)) seq now
+
+/-- Conversely an attribution to a `conn_id` all of whose holders keep a listed address survives
+(with distinct ids: the attribution to a surviving link survives). -/
+theorem C19_tracker_kept_by_ip (mk : Ip → Label) (hinj : Function.Injective mk) (s : Sys)
+    (hinv : LabelInv mk s) (newIps : List Ip) (outs : List (Option ConnOk)) (seq now id : Nat)
+    (hget : s.tracker.get seq now = some id)
+    (hkeep : ∀ l ∈ s.links, l.connId = id → l.ip ∈ newIps) :
+    (applyChanges mk s newIps outs).tracker.get seq now = some id := by
+  rw [C19_tracker_purged, hget]
+  have : id ∉ removedIds mk s newIps := by
+    rw [mem_removedIds_by_ip hinj hinv]
+    rintro ⟨l, hl, hno, he⟩
+    exact hno (hkeep l hl he)
+  simp [this]
+
+/-! ### 11.7 Added once, by address -/
+
+/-- The connect attempts of one reload: pairwise distinct addresses, exactly the listed addresses
+that are NOT YET CONNECTED BY ADDRESS; each attempt yields at most one new link, in attempt order. -/
+theorem C19_added_once_by_ip (mk : Ip → Label) (hinj : Function.Injective mk) (s : Sys)
+    (hinv : LabelInv mk s) (newIps : List Ip) (outs : List (Option ConnOk)) :
+    (neededIps mk s newIps).Nodup ∧
+    (∀ ip, ip ∈ neededIps mk s newIps ↔ ip ∈ newIps ∧ ip ∉ s.links.map (·.ip)) ∧
+    ∃ added : List Link,
+      (applyChanges mk s newIps outs).links =
+        s.links.filter (fun l => decide (l.ip ∈ newIps)) ++ added ∧
+      (added.map (·.ip)).Sublist (neededIps mk s newIps) ∧ (added.map (·.ip)).Nodup := by
+  obtain ⟨h1, h2, added, h3, h4⟩ := C19_added_once mk s newIps outs
+  refine ⟨h1, fun ip => ?_, added, by rw [h3, retained_eq_filter_ip hinj hinv], h4⟩
+  rw [h2 ip, mk_mem_labels_iff hinj hinv]
+
+/-- If every attempt succeeds: one new link per listed, not yet connected address, in list order. -/
+theorem C19_added_all_by_ip (mk : Ip → Label) (hinj : Function.Injective mk) (s : Sys)
+    (hinv : LabelInv mk s) (newIps : List Ip) (cs : List ConnOk)
+    (hlen : cs.length = (neededIps mk s newIps).length) :
+    ∃ added : List Link,
+      (applyChanges mk s newIps (cs.map some)).links =
+        s.links.filter (fun l => decide (l.ip ∈ newIps)) ++ added ∧
+      added.map (·.ip) = neededIps mk s newIps := by
+  obtain ⟨added, h1, h2⟩ := C19_added_all mk s newIps cs hlen
+  exact ⟨added, by rw [h1, retained_eq_filter_ip hinj hinv], h2⟩
+
+/-- No address gets two uplinks through a reload: pairwise distinct addresses stay pairwise distinct. -/
+theorem C19_addresses_unique_by_ip (mk : Ip → Label) (hinj : Function.Injective mk) (s : Sys)
+    (hinv : LabelInv mk s) (newIps : List Ip) (outs : List (Option ConnOk))
+    (hnd : (s.links.map (·.ip)).Nodup) :
+    ((applyChanges mk s newIps outs).links.map (·.ip)).Nodup := by
+  have hmap : ∀ t : Sys, LabelInv mk t → t.links.map (·.label) = (t.links.map (·.ip)).map mk := by
+    intro t ht
+    rw [List.map_map]
+    exact List.map_congr_left (fun l hl => ht l hl)
+  have := C19_labels_unique mk hinj s newIps outs
+    (by rw [hmap s hinv]; exact nodup_map_of_injective mk hinj _ hnd)
+  rw [hmap _ (labelInv_applyChanges mk s newIps outs hinv)] at this
+  exact List.Pairwise.of_map mk (fun a b hne hab => hne (congrArg mk hab)) this
+
+/-! ### 11.8 The previous routing choice, by address -/
+
+/-- `last_selected_idx` is forgotten whenever some link's address is no longer listed … -/
+theorem C19_last_selected_reset_by_ip (mk : Ip → Label) (hinj : Function.Injective mk) (s : Sys)
+    (hinv : LabelInv mk s) (newIps : List Ip) (outs : List (Option ConnOk))
+    (h : ∃ l ∈ s.links, l.ip ∉ newIps) :
+    (applyChanges mk s newIps outs).lastSel = none := by
+  obtain ⟨l, hl, hno⟩ := h
+  exact C19_last_selected_reset mk s newIps outs
+    ⟨l, hl, fun hk => hno ((label_desired_iff hinj hinv newIps hl).1 hk)⟩
+
+/-- … and kept when every link's address is still listed. -/
+theorem C19_last_selected_kept_by_ip (mk : Ip → Label) (hinj : Function.Injective mk) (s : Sys)
+    (hinv : LabelInv mk s) (newIps : List Ip) (outs : List (Option ConnOk))
+    (h : ∀ l ∈ s.links, l.ip ∈ newIps) :
+    (applyChanges mk s newIps outs).lastSel = s.lastSel :=
+  C19_last_selected_kept mk s newIps outs
+    (fun l hl => (label_desired_iff hinj hinv newIps hl).2 (h l hl))
+
+/-- The worked state of section 10 meets every hypothesis of the by-address theorems (invariant,
+injective label function, distinct ids, fresh ids; one address dropped, two kept, one added, one
+listed twice, one failing), and the theorems apply to it. -/
+example :
+    let mk := mkLabel "127.0.0.1" 5000
+    let s : Sys :=
+      { links := [⟨1, "127.0.0.1", mk "127.0.0.1", 11⟩, ⟨2, "127.0.0.2", mk "127.0.0.2", 22⟩,
+                  ⟨3, "127.0.0.3", mk "127.0.0.3", 33⟩]
+        io := [(1, 1), (2, 2), (3, 3)]
+        tracker := Tracker.insert (Tracker.insert [] 100 1 1000) 200 2 1000
+        lastSel := some 2 }
+    let newIps := ["127.0.0.3", "127.0.0.4", "127.0.0.1", "127.0.0.4", "10.255.255.1"]
+    let outs : List (Option ConnOk) := [some ⟨4, 4, 0⟩, none]
+    let l1 : Link := ⟨1, "127.0.0.1", mk "127.0.0.1", 11⟩
+    let l2 : Link := ⟨2, "127.0.0.2", mk "127.0.0.2", 22⟩
+    let s' := applyChanges mk s newIps outs
+    (LabelInv mk s ∧ Function.Injective mk ∧ (ids s).Nodup ∧ Fresh s outs) ∧
+    (l1 ∈ s.links ∧ l1.ip ∈ newIps ∧ l2 ∈ s.links ∧ l2.ip ∉ newIps) ∧
+    s.links.filter (fun l => decide (l.ip ∈ newIps)) <+: s'.links ∧
+    s'.io.get 1 = s.io.get 1 ∧ s.io.get 1 = some 1 ∧
+    (l1 ∈ s'.links ∧ ¬ l2 ∈ s'.links) ∧ (1 ∈ ids s' ∧ 2 ∉ ids s') ∧
+    (s'.io.get 2 = none ∧ 2 ∉ s'.io.keys) ∧
+    (s.tracker.get 200 2000 = some 2 ∧ s'.tracker.get 200 2000 ≠ some 2) ∧
+    (s.tracker.get 100 2000 = some 1 ∧ s'.tracker.get 100 2000 = some 1) ∧
+    (s.lastSel = some 2 ∧ s'.lastSel = none) ∧
+    neededIps mk s newIps = ["127.0.0.4", "10.255.255.1"] ∧
+    (s'.links.map (·.ip)).Nodup := by
+  intro mk s newIps outs l1 l2 s'
+  have hinv : LabelInv mk s := by unfold LabelInv; decide
+  have hinj : Function.Injective mk := C19_mkLabel_injective _ _
+  have hnd : (ids s).Nodup := by decide
+  have hfresh : Fresh s outs := by unfold Fresh; decide
+  have hl1 : l1 ∈ s.links := by decide
+  have hl2 : l2 ∈ s.links := by decide
+  have hk1 : l1.ip ∈ newIps := by decide
+  have hg2 : l2.ip ∉ newIps := by decide
+  refine ⟨⟨hinv, hinj, hnd, hfresh⟩, ⟨hl1, hk1, hl2, hg2⟩,
+    C19_survivors_prefix_by_ip mk hinj s hinv newIps outs,
+    C19_survivors_socket_by_ip mk hinj s hinv newIps outs hnd hfresh l1 hl1 hk1, by decide,
+    ⟨(C19_removed_exactly_by_ip mk hinj s hinv newIps outs l1 hl1).2 hk1,
+     fun h => hg2 ((C19_removed_exactly_by_ip mk hinj s hinv newIps outs l2 hl2).1 h)⟩,
+    ⟨(C19_removed_exactly_ids_by_ip mk hinj s hinv newIps outs hnd hfresh l1 hl1).2 hk1,
+     fun h => hg2 ((C19_removed_exactly_ids_by_ip mk hinj s hinv newIps outs hnd hfresh l2 hl2).1 h)⟩,
+    C19_removed_io_by_ip mk hinj s hinv newIps outs hfresh l2 hl2 hg2,
+    ⟨by decide, C19_tracker_no_removed_by_ip mk hinj s hinv newIps outs l2 hl2 hg2 200 2000⟩,
+    ⟨by decide, C19_tracker_kept_by_ip mk hinj s hinv newIps outs 100 2000 1 (by decide) (by decide)⟩,
+    ⟨rfl, C19_last_selected_reset_by_ip mk hinj s hinv newIps outs ⟨l2, hl2, hg2⟩⟩,
+    by decide,
+    C19_addresses_unique_by_ip mk hinj s hinv newIps outs (by decide)⟩
+
+/-- A pure addition (every old address still listed) keeps the routing choice. -/
+example :
+    let mk := mkLabel "h" 1
+    let s : Sys := { links := [⟨1, "a", mk "a", 5⟩, ⟨2, "b", mk "b", 6⟩], io := [(1, 1), (2, 2)],
+                     lastSel := some 1 }
+    (applyChanges mk s ["b", "c", "a"] [some ⟨3, 3, 0⟩]).lastSel = some 1 ∧
+    (applyChanges mk s ["b", "c", "a"] [some ⟨3, 3, 0⟩]).links.map (·.ip) = ["a", "b", "c"] := by
+  intro mk s
+  exact ⟨C19_last_selected_kept_by_ip mk (C19_mkLabel_injective _ _) s (by unfold LabelInv; decide)
+    _ _ (by decide), by decide⟩
+
+/-! ### 11.9 Both hypotheses discharged: the real label function, any reachable state -/
+
+/-- For the real label function the invariant alone suffices (injectivity is proved). -/
+theorem C19_survivors_equal_by_ip_mkLabel (host : String) (port : Nat) (s : Sys)
+    (hinv : LabelInv (mkLabel host port) s) (newIps : List Ip) (outs : List (Option ConnOk)) :
+    ∃ added : List Link,
+      (applyChanges (mkLabel host port) s newIps outs).links =
+        s.links.filter (fun l => decide (l.ip ∈ newIps)) ++ added ∧
+      ∀ a ∈ added, a.ip ∉ s.links.map (·.ip) ∧ a.connId ∈ okIds outs ∧
+        a.ip ∈ newIps ∧ a.label = mkLabel host port a.ip :=
+  C19_survivors_equal_by_ip _ (mkLabel_injective host port) s hinv newIps outs
+
+theorem C19_removed_exactly_by_ip_mkLabel (host : String) (port : Nat) (s : Sys)
+    (hinv : LabelInv (mkLabel host port) s) (newIps : List Ip) (outs : List (Option ConnOk))
+    (l : Link) (hl : l ∈ s.links) :
+    l ∈ (applyChanges (mkLabel host port) s newIps outs).links ↔ l.ip ∈ newIps :=
+  C19_removed_exactly_by_ip _ (mkLabel_injective host port) s hinv newIps outs l hl
+
+theorem C19_tracker_no_removed_by_ip_mkLabel (host : String) (port : Nat) (s : Sys)
+    (hinv : LabelInv (mkLabel host port) s) (newIps : List Ip) (outs : List (Option ConnOk))
+    (l : Link) (hl : l ∈ s.links) (hgone : l.ip ∉ newIps) (seq now : Nat) :
+    (applyChanges (mkLabel host port) s newIps outs).tracker.get seq now ≠ some l.connId :=
+  C19_tracker_no_removed_by_ip _ (mkLabel_injective host port) s hinv newIps outs l hl hgone seq now
+
+theorem C19_last_selected_by_ip_mkLabel (host : String) (port : Nat) (s : Sys)
+    (hinv : LabelInv (mkLabel host port) s) (newIps : List Ip) (outs : List (Option ConnOk)) :
+    ((∃ l ∈ s.links, l.ip ∉ newIps) →
+      (applyChanges (mkLabel host port) s newIps outs).lastSel = none) ∧
+    ((∀ l ∈ s.links, l.ip ∈ newIps) →
+      (applyChanges (mkLabel host port) s newIps outs).lastSel = s.lastSel) :=
+  ⟨C19_last_selected_reset_by_ip _ (mkLabel_injective host port) s hinv newIps outs,
+   C19_last_selected_kept_by_ip _ (mkLabel_injective host port) s hinv newIps outs⟩
+
+theorem C19_added_once_by_ip_mkLabel (host : String) (port : Nat) (s : Sys)
+    (hinv : LabelInv (mkLabel host port) s) (newIps : List Ip) (outs : List (Option ConnOk)) :
+    (neededIps (mkLabel host port) s newIps).Nodup ∧
+    (∀ ip, ip ∈ neededIps (mkLabel host port) s newIps ↔ ip ∈ newIps ∧ ip ∉ s.links.map (·.ip)) :=
+  let h := C19_added_once_by_ip _ (mkLabel_injective host port) s hinv newIps outs
+  ⟨h.1, h.2.1⟩
+
+/-- Run level, no hypothesis left: after startup from ANY list and ANY history of SIGHUPs, ticks,
+tracker inserts, link-state changes, routing choices and in-place reconnects, the next
+`apply_connection_changes` removes exactly the links whose ADDRESS is not listed (and keeps the
+others as the same records). -/
+theorem C19_removed_exactly_by_ip_run (host : String) (port : Nat) (ips0 : List Ip)
+    (outs0 : List (Option ConnOk)) (ops : List Op) (newIps : List Ip) (outs : List (Option ConnOk))
+    (l : Link) (hl : l ∈ (run (mkLabel host port) (startup (mkLabel host port) ips0 outs0) ops).links) :
+    l ∈ (applyChanges (mkLabel host port)
+          (run (mkLabel host port) (startup (mkLabel host port) ips0 outs0) ops) newIps outs).links ↔
+      l.ip ∈ newIps :=
+  C19_removed_exactly_by_ip_mkLabel host port _ (C19_label_inv_reachable _ ips0 outs0 ops) newIps outs l hl
+
+/-- The same through the event-loop arms: after any history, an accepted SIGHUP file followed by
+the housekeeping tick removes exactly the links whose address is not among the parsable lines, drops
+every tracker attribution to them and forgets the routing choice iff there is such a link. -/
+theorem C19_reload_by_ip_run (host : String) (port : Nat) (ips0 : List Ip)
+    (outs0 : List (Option ConnOk)) (ops : List Op) (lines : List Line) (outs : List (Option ConnOk))
+    (hok : okIps lines ≠ []) :
+    let mk := mkLabel host port
+    let s := run mk (startup mk ips0 outs0) ops
+    let s' := run mk s [.sighup (some lines), .tick outs]
+    (∀ l ∈ s.links, (l ∈ s'.links ↔ l.ip ∈ okIps lines)) ∧
+    (∀ l ∈ s.links, l.ip ∉ okIps lines → ∀ seq now, s'.tracker.get seq now ≠ some l.connId) ∧
+    ((∃ l ∈ s.links, l.ip ∉ okIps lines) → s'.lastSel = none) ∧
+    ((∀ l ∈ s.links, l.ip ∈ okIps lines) → s'.lastSel = s.lastSel) := by
+  intro mk s s'
+  have hinv : LabelInv mk { s with pending := none } := C19_label_inv_reachable mk ips0 outs0 ops
+  have hs' : s' = applyChanges mk { s with pending := none } (okIps lines) outs :=
+    (C19_applied_list_sys mk s lines outs hok).2
+  rw [hs']
+  exact ⟨fun l hl => C19_removed_exactly_by_ip_mkLabel host port _ hinv _ outs l hl,
+    fun l hl hg seq now => C19_tracker_no_removed_by_ip_mkLabel host port _ hinv _ outs l hl hg seq now,
+    (C19_last_selected_by_ip_mkLabel host port _ hinv _ outs).1,
+    (C19_last_selected_by_ip_mkLabel host port _ hinv _ outs).2⟩
+
+/-- A non-trivial instance: startup with a duplicated line and a failed attempt, some history, then a
+reload file that drops one connected address, keeps one and adds one. -/
+example :
+    let mk := mkLabel "127.0.0.1" 5000
+    let s := run mk (startup mk ["127.0.0.1", "127.0.0.1", "10.255.255.1", "127.0.0.2"]
+        [some ⟨1, 1, 0⟩, some ⟨2, 2, 0⟩, none, some ⟨3, 3, 0⟩])
+      [.track 5 3 100, .sighup (some [.ok "127.0.0.2", .bad, .ok "127.0.0.3"]), .mutate 2 7,
+       .tick [some ⟨4, 4, 0⟩], .select (some 1)]
+    let lines : List Line := [.ok "127.0.0.3", .blank, .bad, .ok "127.0.0.5"]
+    let s' := run mk s [.sighup (some lines), .tick [some ⟨6, 6, 0⟩]]
+    okIps lines ≠ [] ∧
+    s.links.map (·.ip) = ["127.0.0.2", "127.0.0.3"] ∧ s.lastSel = some 1 ∧
+    s.tracker.get 5 200 = some 3 ∧
+    s'.links.map (·.ip) = ["127.0.0.3", "127.0.0.5"] ∧ s'.lastSel = none ∧
+    s'.tracker.get 5 200 = none := by
   decide
 
 end Srtla.Props.C19
